@@ -40,16 +40,21 @@ type PlanReader struct {
 }
 
 func (r *PlanReader) Read(p []byte) (int, error) {
-	rt.Progress.Add(1)
 	r.Reads++
 	if len(p) == 0 {
+		// a zero-length read is not progress: a consumer that only issues
+		// such reads is spinning
 		return 0, nil
 	}
 	if r.off >= len(r.Data) {
 		r.log(len(p), 0, io.EOF)
+		if !r.EOFReturned {
+			rt.Progress.Add(1) // the first end-of-file indication only
+		}
 		r.EOFReturned = true
 		return 0, io.EOF
 	}
+	rt.Progress.Add(1)
 	n := len(p)
 	if len(r.Chunks) > 0 {
 		if c := r.Chunks[r.calls%len(r.Chunks)]; c > 0 && c < n {
@@ -129,14 +134,17 @@ type FaultReader struct {
 }
 
 func (r *FaultReader) Read(p []byte) (int, error) {
-	rt.Progress.Add(1)
 	if len(p) == 0 {
 		return 0, nil
 	}
 	if r.off >= r.K {
+		if !r.Delivered {
+			rt.Progress.Add(1)
+		}
 		r.Delivered = true
 		return 0, ErrInjected
 	}
+	rt.Progress.Add(1)
 	n := len(p)
 	if len(r.Chunks) > 0 {
 		if c := r.Chunks[r.calls%len(r.Chunks)]; c > 0 && c < n {
